@@ -250,7 +250,15 @@ func runSolver(ctx context.Context, sp solverSpec, file string, tsec, seed int) 
 	_ = cmd.Run()
 	ms := time.Since(start).Milliseconds()
 	o := out.String()
-	first := strings.TrimSpace(strings.SplitN(o, "\n", 2)[0])
+	first := ""
+	for _, ln := range strings.Split(o, "\n") {
+		ln = strings.TrimSpace(ln)
+		if ln == "" || strings.HasPrefix(ln, "WARNING") || strings.HasPrefix(ln, "(warning") {
+			continue
+		}
+		first = ln
+		break
+	}
 	st := "error"
 	switch {
 	case first == "unsat":
